@@ -125,12 +125,18 @@ TYPES = {}
 def mk_exc(spec):
     # one class object per (name, base) for the whole run: classifiers must be functions of the exception, so answers may
     # not depend on which classifier saw an exception type first (per-type caches, registries)
-    key = (spec["name"], spec["base"])
+    shadow = spec.get("args_attr")
+    key = (spec["name"], spec["base"], shadow is not None)
     if key not in TYPES:
-        TYPES[key] = type(spec["name"], (BASES[spec["base"]],), {})
+        # with "args_attr" the type defines `args` itself (as a dataclass with a field of that name does): instances then keep
+        # whatever is assigned to it
+        TYPES[key] = type(spec["name"], (BASES[spec["base"]],), {"args": None} if shadow is not None else {})
     cls = TYPES[key]
     e = cls()
-    e.args = tuple(mk_value(a) for a in spec["args"])     # OSError subclasses rearrange constructor arguments
+    if shadow is None:
+        e.args = tuple(mk_value(a) for a in spec["args"])     # OSError subclasses rearrange constructor arguments
+    else:
+        e.args = [mk_value(a) for a in spec["args"]] if shadow["t"] == "list_of_args" else mk_value(shadow)
     for k, v in spec["attrs"].items():
         setattr(e, k, mk_value(v))
     return e
